@@ -119,6 +119,12 @@ def main(inp, outp):
         T = TWO_PI * math.sqrt(a ** 3 / Earth.mu)
         frac = float(rng.uniform(0.05, 0.9)) if _ % 2 else float(rng.uniform(0.02, 0.12))      # every other transfer is a short arc
         o0 = Orbit(kep, Date(2020, 1, 1), "keplerian", "EME2000", "Kepler")
+        if _ % 5 == 4:
+            # nearly opposed positions (swept angle pi -/+ delta): "not collinear", but the plane is defined by a small cross product
+            delta = [1e-2, -1e-3, 1e-4, -1e-5, 3e-6][(_ // 5) % 5]
+            tgt = Orbit(kep[:5] + [kep[5] + math.pi - delta], o0.date, "keplerian", "EME2000", "Kepler")
+            m0, m1 = float(o0.copy(form="keplerian_mean")[5]), float(tgt.copy(form="keplerian_mean")[5])
+            frac = ((m1 - m0) % TWO_PI) / TWO_PI
         o1 = o0.propagate(o0.date + timedelta(seconds=frac * T))
         c0, c1 = np.asarray(o0.copy(form="cartesian"), float), np.asarray(o1.copy(form="cartesian"), float)
         hz = np.cross(c0[:3], c0[3:])[2]
